@@ -77,7 +77,31 @@ pub fn conv_bytes(s: &mut Src, len: usize, m: Md) -> (Vec<u8>, &'static str) {
     }
 }
 
-const FOREIGN: [&str; 12] = ["+", "-", " ", "a", ".", "\u{0663}", "\u{FF11}", "\0", "\u{1F600}", "x", "e", "_"];
+const FOREIGN: [&str; 18] = ["+", "-", " ", "a", ".", "\u{0663}", "\u{FF11}", "\0", "\u{1F600}", "x", "e", "_", "/", ":", ";", "@", "\u{00B2}", "\u{0967}"];
+
+/// one character that is not an ASCII digit: the fixed table (signs, neighbours of '0'..'9' in ASCII, non-ASCII digits)
+/// or any other ASCII / Unicode scalar derived from the source
+fn foreign_char(s: &mut Src) -> String {
+    match s.choose(4) {
+        0 | 1 => FOREIGN[s.choose(FOREIGN.len())].to_string(),
+        2 => {
+            // any ASCII byte that is not a digit
+            let mut b = s.u8() & 0x7F;
+            if b.is_ascii_digit() {
+                b = b'0' + 10 + (b - b'0'); // ':' .. 'C'
+            }
+            (b as char).to_string()
+        }
+        _ => {
+            let c = char::from_u32(0x80 + (s.u32() % 0x2_0000)).unwrap_or('\u{FFFD}');
+            if c.is_ascii_digit() {
+                "~".to_string()
+            } else {
+                c.to_string()
+            }
+        }
+    }
+}
 
 pub fn text(s: &mut Src) -> (String, bool, &'static str) {
     // returns (string, all-ascii-digits-and-nonempty, class)
@@ -98,11 +122,11 @@ pub fn text(s: &mut Src) -> (String, bool, &'static str) {
     }
     if s.choose(3) == 0 {
         // inject one foreign character at a chosen position
-        let f = FOREIGN[s.choose(FOREIGN.len())];
+        let f = foreign_char(s);
         let chars: Vec<char> = t.chars().collect();
         let pos = s.choose(chars.len() + 1).min(chars.len());
         let mut u: String = chars[..pos].iter().collect();
-        u.push_str(f);
+        u.push_str(&f);
         u.extend(chars[pos..].iter());
         return (u, false, "foreign-char");
     }
